@@ -1,4 +1,238 @@
-/-! Line protocol handler for the `sim` domain (stub until the model exists). -/
+import OFCore.RuleSys
+import OFCore.Drv.Per
+/-!
+Line protocol for the engine domain (`sim`): one self-contained case per line.
+
+```
+sim P <nP> G <nG> M <m…> MSL <k>
+    V <nV> { <entity> <vtype> <unit> <default> <neutral> <end|-> <noStore> F <nF> { <start> <expr> } }
+    I <nI> { <v> <period> <values…> }
+    R <nR> { calc <v> <period> | add <v> <period> | arm <id> | disarm <id> }
+expr ::= c <k> | v <w> <pt> <0|1> | o1 <o> expr | o2 <o> expr expr | f <id> expr
+pt   ::= same | this_year | first_month | last_month | last_year | off:<n>:<unit>
+```
+Answer: `<res>;<res>;…|<known entries>` with res = `ok:<v,…>` | `CYCLE` | `ERR` | `FUEL`, known =
+`<v>@<period>=<v,…>[!]` sorted (`!` = ghost-tainted entry, stripped by the harness before
+comparison).
+-/
 namespace OFCore.Drv
-def handleSim (_args : List String) : String := "BAD"
+open OFCore OFCore.Engine OFCore.RuleSys
+
+abbrev Parser (α : Type) := List String → Option (α × List String)
+
+def pNat : Parser Nat
+  | t :: r => t.toNat?.map (·, r)
+  | [] => none
+
+def pInt : Parser Int
+  | t :: r => t.toInt?.map (·, r)
+  | [] => none
+
+def pTok (s : String) : Parser Unit
+  | t :: r => if t = s then some ((), r) else none
+  | [] => none
+
+def pMany {α : Type} (p : Parser α) : Nat → Parser (List α)
+  | 0, ts => some ([], ts)
+  | n+1, ts => do
+    let (a, ts) ← p ts
+    let (as, ts) ← pMany p n ts
+    pure (a :: as, ts)
+
+def pPT : Parser PTrans
+  | t :: r =>
+    match t with
+    | "same" => some (.same, r)
+    | "this_year" => some (.thisYear, r)
+    | "first_month" => some (.firstMonth, r)
+    | "last_month" => some (.lastMonth, r)
+    | "last_year" => some (.lastYear, r)
+    | _ => match t.splitOn ":" with
+      | ["off", n, u] => do pure (.offset (← n.toInt?) (← DUnit.ofName u), r)
+      | _ => none
+  | [] => none
+
+def pExpr : Nat → Parser DExpr
+  | 0, _ => none
+  | fuel+1, ts =>
+    match ts with
+    | "c" :: r => do let (k, r) ← pInt r; pure (.const k, r)
+    | "v" :: r => do
+      let (w, r) ← pNat r
+      let (pt, r) ← pPT r
+      let (a, r) ← pNat r
+      pure (.var w pt (a ≠ 0), r)
+    | "o1" :: r => do
+      let (o, r) ← pNat r
+      let (a, r) ← pExpr fuel r
+      pure (.op1 o a, r)
+    | "o2" :: r => do
+      let (o, r) ← pNat r
+      let (a, r) ← pExpr fuel r
+      let (b, r) ← pExpr fuel r
+      pure (.op2 o a b, r)
+    | "f" :: r => do
+      let (id, r) ← pNat r
+      let (a, r) ← pExpr fuel r
+      pure (.fail id a, r)
+    | _ => none
+
+def pVType : Parser VType
+  | "int" :: r => some (.int, r)
+  | "float" :: r => some (.float, r)
+  | "bool" :: r => some (.bool, r)
+  | "enum" :: r => some (.enum, r)
+  | "date" :: r => some (.date, r)
+  | _ => none
+
+def pUnit : Parser DUnit
+  | t :: r => (DUnit.ofName t).map (·, r)
+  | [] => none
+
+def pOptInt : Parser (Option Int)
+  | "-" :: r => some (none, r)
+  | t :: r => t.toInt?.map (fun i => (some i, r))
+  | [] => none
+
+def pFormula : Parser (Int × DExpr) := fun ts => do
+  let (s, ts) ← pInt ts
+  let (e, ts) ← pExpr 200 ts
+  pure ((s, e), ts)
+
+def pVar : Parser Var := fun ts => do
+  let (entity, ts) ← pNat ts
+  let (vt, ts) ← pVType ts
+  let (u, ts) ← pUnit ts
+  let (dflt, ts) ← pInt ts
+  let (neu, ts) ← pNat ts
+  let (e, ts) ← pOptInt ts
+  let (ns, ts) ← pNat ts
+  let (_, ts) ← pTok "F" ts
+  let (nF, ts) ← pNat ts
+  let (fs, ts) ← pMany pFormula nF ts
+  pure ({ entity := entity, vtype := vt, unit := u, dflt := dflt, neutralized := neu ≠ 0, endOrd := e,
+          noStore := ns ≠ 0, formulas := fs }, ts)
+
+def pPeriod : Parser Period
+  | t :: r => (parsePeriod? t).map (·, r)
+  | [] => none
+
+inductive Req
+  | calc (v : Nat) (p : Period)
+  | add (v : Nat) (p : Period)
+  | arm (id : Nat)
+  | disarm (id : Nat)
+
+def pReq : Parser Req
+  | "calc" :: r => do let (v, r) ← pNat r; let (p, r) ← pPeriod r; pure (.calc v p, r)
+  | "add" :: r => do let (v, r) ← pNat r; let (p, r) ← pPeriod r; pure (.add v p, r)
+  | "arm" :: r => do let (i, r) ← pNat r; pure (.arm i, r)
+  | "disarm" :: r => do let (i, r) ← pNat r; pure (.disarm i, r)
+  | _ => none
+
+structure SimCase where
+  decl : Decl
+  reqs : List Req
+
+def pCase : Parser SimCase := fun ts => do
+  let (_, ts) ← pTok "P" ts
+  let (nP, ts) ← pNat ts
+  let (_, ts) ← pTok "G" ts
+  let (nG, ts) ← pNat ts
+  let (_, ts) ← pTok "M" ts
+  let (mem, ts) ← pMany pNat nP ts
+  let (_, ts) ← pTok "MSL" ts
+  let (msl, ts) ← pNat ts
+  let (_, ts) ← pTok "V" ts
+  let (nV, ts) ← pNat ts
+  let (vars, ts) ← pMany pVar nV ts
+  let (_, ts) ← pTok "I" ts
+  let (nI, ts) ← pNat ts
+  let pInput : Parser (Nat × Period × Val) := fun ts => do
+    let (v, ts) ← pNat ts
+    let (p, ts) ← pPeriod ts
+    let vv ← vars[v]?
+    let (xs, ts) ← pMany pInt (if vv.entity = 0 then nP else nG) ts
+    pure ((v, p, xs), ts)
+  let (inputs, ts) ← pMany pInput nI ts
+  let (_, ts) ← pTok "R" ts
+  let (nR, ts) ← pNat ts
+  let (reqs, ts) ← pMany pReq nR ts
+  pure ({ decl := { nP := nP, nG := nG, mem := mem, msl := msl, vars := vars, inputs := inputs }, reqs := reqs }, ts)
+
+def showVal (x : Val) : String := ",".intercalate (x.map toString)
+
+def showRes : Option Res → String
+  | none => "FUEL"
+  | some (.ok x) => "ok:" ++ showVal x
+  | some (.error .cycle) => "CYCLE"
+  | some (.error .fault) => "ERR"
+
+def FUEL : Nat := 100000
+
+/-- one top-level `calculate` on an already elaborated node -/
+def doCalc (sys : Sys Period) (s : St Period) (k : Except String (Node Period)) : Option Res × St Period :=
+  match k with
+  | .error _ => (some (.error .fault), s)
+  | .ok k =>
+    match request sys FUEL s k with
+    | none => (none, s)
+    | some (r, _, s') => (some r, s')
+
+def doAdd (sys : Sys Period) (s : St Period) (ks : List (Except String (Node Period))) : Option Res × St Period :=
+  let rec go (acc : Val) (first : Bool) (s : St Period) : List (Except String (Node Period)) → Option Res × St Period
+    | [] => (some (.ok acc), s)
+    | k :: ks =>
+      match doCalc sys s k with
+      | (some (.ok x), s') => go (if first then x else vecAdd acc x) false s' ks
+      | (r, s') => (r, s')
+  go [] true s ks
+
+def periodKey (p : Period) : String := showPeriod p
+
+def showKnown (d : Decl) (s : St Period) : String :=
+  let inputs : List (String × String) := d.inputs.filterMap (fun i =>
+    match d.vars[i.1]? with
+    | none => none
+    | some vv =>
+      -- inputs past the variable's `end` are ignored by `set_input`; neutralised variables ignore inputs
+      if vv.neutralized then none
+      else match vv.endOrd with
+        | some e => if i.2.1.unit ≠ .eternity ∧ ord i.2.1.start > e then none
+                    else some (s!"{i.1}@{periodKey i.2.1}", showVal i.2.2)
+        | none => some (s!"{i.1}@{periodKey i.2.1}", showVal i.2.2))
+  -- the newest cache entry for a key shadows older ones
+  let rec dedup (seen : List (Node Period)) : Cache Period → List (String × String)
+    | [] => []
+    | (k, (x, g)) :: r =>
+      if seen.contains k then dedup seen r
+      else (s!"{k.1}@{periodKey k.2}", showVal x ++ (if g then "!" else "")) :: dedup (k :: seen) r
+  let all := inputs ++ dedup [] s.cache
+  let sorted := all.toArray.qsort (fun a b => a.1 < b.1) |>.toList
+  ",".intercalate (sorted.map (fun e => e.1 ++ "=" ++ e.2))
+
+def runCase (c : SimCase) : String :=
+  let rec go (armed : List Nat) (s : St Period) (out : List String) : List Req → List String × St Period
+    | [] => (out.reverse, s)
+    | .arm i :: r => go (i :: armed) s ("-" :: out) r
+    | .disarm i :: r => go (armed.filter (· ≠ i)) s ("-" :: out) r
+    | .calc v p :: r =>
+      let sys := elabSys c.decl armed
+      let (res, s') := doCalc sys s (requestNode c.decl v p)
+      go armed s' ((showRes res ++ (if s'.stack.isEmpty ∧ s'.inval.isEmpty then "" else "#STATE")) :: out) r
+    | .add v p :: r =>
+      let sys := elabSys c.decl armed
+      match requestAddNodes c.decl v p with
+      | .error _ => go armed s ("ERR" :: out) r
+      | .ok ks =>
+        let (res, s') := doAdd sys s ks
+        go armed s' ((showRes res ++ (if s'.stack.isEmpty ∧ s'.inval.isEmpty then "" else "#STATE")) :: out) r
+  let (outs, s) := go [] St.init [] c.reqs
+  ";".intercalate outs ++ "|" ++ showKnown c.decl s
+
+def handleSim (args : List String) : String :=
+  match pCase args with
+  | some (c, []) => runCase c
+  | _ => "BAD"
+
 end OFCore.Drv
